@@ -92,7 +92,8 @@ def contCharge (b : Batt K) (pilot V T ν : K) : Except Err (Batt K × K) :=
   if V ≤ 0 then .error .valueError
   else if T ≤ 0 then .error .valueError
   else if isZero pilot then .ok ({ b with power := 0 }, 0)
-  else if isZero b.capacity then .error .zeroDivision        -- `… / self._capacity`
+  else if isZero b.capacity then .error .zeroDivision        -- `self._soc`, `… / self._capacity`
+  else if 1 ≤ soc b then .ok ({ b with power := 0 }, 0)      -- full battery (fix F18): no charge
   else
     let pd0 := pilot * V / (1000 : Nat) / b.capacity / ((60 : Nat) / T)
     let md := b.maxPower / b.capacity / ((60 : Nat) / T)
